@@ -158,6 +158,8 @@ Definition arith (op : binop) (a b : value) : outcome value :=
   | Shr =>
       do x <- clean a; do k <- clean b;
       if (k <? 0) || (15 <? k) then Unsupported "shift count" else
+      (* C leaves the right shift of a negative value to the implementation (C99 6.5.7p5) *)
+      if x <? 0 then Undecided else
       Ok (mk (join (wc a) WLit) (x / 2 ^ k) false)
   | Div =>
       do x <- clean a; do y <- clean b;
